@@ -419,6 +419,22 @@ func driveEncoder(c *driverCtx, prop string) error {
 	if prop == "C09" {
 		cases = append(cases, hcase{"null", 4 << 20, []encOp{{p: payload(c.rng, 600000)}, {p: payload(c.rng, 600000)}, {p: payload(c.rng, 10)}, {flush: true}, {p: payload(c.rng, 3)}, {flush: true}}})
 	}
+	// several blocks of 64 KiB and more through one writer, under the compressing codecs, compressible and not (whatever
+	// a writer keeps for large blocks is kept from one large block to the next); a record larger than the block size
+	// among ordinary ones
+	if prop == "C09" {
+		rep := func(n int, seed byte) []byte {
+			b := make([]byte, n)
+			for i := range b {
+				b[i] = seed + byte(i%7)
+			}
+			return b
+		}
+		for _, codec := range []string{"deflate", "snappy"} {
+			cases = append(cases, hcase{codec, 70000, []encOp{{p: rep(40000, 'a')}, {p: rep(40000, 'h')}, {p: payload(c.rng, 40000)}, {p: rep(40000, 'p')}, {p: rep(30000, 'A')}, {p: rep(50000, 'H')}, {flush: true}}})
+			cases = append(cases, hcase{codec, 3000, []encOp{{p: rep(100, 'a')}, {p: rep(9000, 'b')}, {p: rep(100, 'c')}, {p: rep(20000, 'd')}, {p: payload(c.rng, 9000)}, {p: rep(9000, 'e')}, {flush: true}, {p: rep(5, 'f')}, {flush: true}}})
+		}
+	}
 	// many records that compress to almost nothing: 64 and more rows in a block of a few bytes
 	for _, n := range []int{63, 64, 65, 100, 200} {
 		for _, codec := range []string{"deflate", "snappy"} {
